@@ -330,7 +330,7 @@ prop('C14',
            'sub-trees evaluated with a shift derived from the outer element and return nil on a drawn residue class; oracle: a list interpreter '
            '(evalS) compared with the slice collected by the documented loop, and with seq.ForEach under a callback failing at a drawn position '
            '(visited prefix and returned error); source slices compared with private copies afterwards; '
-           'a third of the slice leaves are windows buf[:n] of larger buffers whose hidden capacity holds sentinels that must survive; in a separate generated part two expressions over shared leaf buffers are drained alternately, step by step; the evaluations of predicates, mappings and join bodies are counted: none may happen after the ForEach callback returned its error; a separate part (race detector on) executes 2..8 independent scenarios in as many goroutines at once, each repeated 20-30 times: instances of their own share nothing; non-trivial = depth >= 3, expected length >= 1, >= 2 different combinators; distinct = different canonical tree+fail position'),
+           'a third of the slice leaves are windows buf[:n] of larger buffers whose hidden capacity holds sentinels that must survive; in a separate generated part two expressions over shared leaf buffers are drained alternately, step by step; the evaluations of predicates, mappings and join bodies are counted: none may happen after the ForEach callback returned its error; a separate part (race detector on) executes 2..8 independent scenarios in as many goroutines at once, each repeated 20-30 times: instances of their own share nothing; one slice leaf in four hundred has a length at a power of two (64 .. 4096, -1/0/+1; at most one such leaf per tree); non-trivial = depth >= 3, expected length >= 1, >= 2 different combinators; distinct = different canonical tree+fail position'),
      assumptions=['element type int only; user functions are pure and total', 'an empty result may be a nil Seq or an iterator-less loop: compared by the collected slice'],
      parts=[
          dict(name='enum', engine='E5', pkg='iters', test='TestC14Enum', kind='plain', quick=dict(shards=4), thorough=dict(shards=8)),
@@ -355,7 +355,7 @@ prop('C15',
            'combinators through ToSeq/FromSeq; leaves carry keys in 1000..1020 and values in 0..20 so a swapped or stale key is visible; predicates, '
            'mappings and join bodies depend asymmetrically on (key, value) (e.g. k-2v mod m); oracle: list-of-pairs interpreter (evalP) vs the '
            '(Key(),Value()) pairs collected by the documented loop and by pair.ForEach with a failing callback; '
-           'in a separate generated part two expressions over shared leaves are drained alternately; the evaluations of predicates, mappings and join functions are counted: none may happen after the ForEach callback returned its error; a separate part (race detector on) executes 2..8 independent scenarios in as many goroutines at once, each repeated 20-30 times: instances of their own share nothing; non-trivial = depth >= 3, expected length >= 1, >= 2 different combinators; distinct = different canonical tree+fail position'),
+           'in a separate generated part two expressions over shared leaves are drained alternately; the evaluations of predicates, mappings and join functions are counted: none may happen after the ForEach callback returned its error; a separate part (race detector on) executes 2..8 independent scenarios in as many goroutines at once, each repeated 20-30 times: instances of their own share nothing; one slice leaf in four hundred has a length at a power of two (64 .. 4096, -1/0/+1; at most one such leaf per tree); non-trivial = depth >= 3, expected length >= 1, >= 2 different combinators; distinct = different canonical tree+fail position'),
      assumptions=['key and value type int only; user functions are pure and total'],
      parts=[
          dict(name='enum', engine='E5', pkg='iters', test='TestC15Enum', kind='plain', quick=dict(shards=4), thorough=dict(shards=8)),
@@ -430,7 +430,7 @@ prop('C18',
            'under 3 drawn height seeds (virtual clock offset inside a synctest bubble, which is what seeds the node heights); oracle: Go map for every '
            'return value and for Get of the whole universe after EVERY step, plus the parsed String() form after every step (live keys strictly ascending '
            'under the scenario order and equal to the model key set, forward pointers only to strictly larger live keys); '
-           'string keys include percent characters (100%, %v, a%sb, %d%%); a third of the histories drive a second list alongside (own model) with interleaved operations; a separate part (race detector on) executes 2..8 independent scenarios in as many goroutines at once, each repeated 20-30 times: instances of their own share nothing; in a third of the histories the printed form is read only after a drawn subset of the steps (and the last one), so that a form remembered between steps is exposed; non-trivial = the history re-inserts or reads a removed key, overwrites a key, or inserts in descending order; distinct = different canonical scenario'),
+           'string keys include percent characters (100%, %v, a%sb, %d%%); a third of the histories drive a second list alongside (own model) with interleaved operations; a separate part (race detector on) executes 2..8 independent scenarios in as many goroutines at once, each repeated 20-30 times: instances of their own share nothing; in a third of the histories the printed form is read only after a drawn subset of the steps (and the last one), so that a form remembered between steps is exposed; one history in forty works on 50..300 integer keys with up to 600 operations (upper levels of the list); non-trivial = the history re-inserts or reads a removed key, overwrites a key, or inserts in descending order; distinct = different canonical scenario'),
      assumptions=['internal/maplike is exercised as a staged copy of the working-tree sources under the import path github.com/fogfish/golem/maplike',
                   'node heights are made deterministic through the bubble clock only (no source change): skiplist.New seeds from time.Now()',
                   'string keys are non-empty and contain no blanks so that the printed form can be parsed unambiguously'],
